@@ -282,6 +282,10 @@ def rule_handler_mask(ctx):
 
 # ------------------------------------------------------------------- A2.probe
 
+def R_node(n):
+    return n.ast
+
+
 def rule_probe_order(ctx):
     """A2.probe: after a short read the end-of-stream probe reads the octet that FOLLOWS the received ones: no seek
     between the short read and the probe (a probe after seeking back re-reads received data and never sees the end)."""
@@ -301,6 +305,11 @@ def rule_probe_order(ctx):
     reads = [n for n in cfg.nodes if is_call(n, 'read', lambda c: c.args and norm(c.args[0]) == f.params()[1])]
     probes = [n for n in cfg.nodes if is_call(n, 'read', lambda c: c.args and const_int(c.args[0]) == 1)]
     seeks = [n for n in cfg.nodes if is_call(n, 'seek')]
+    if len(reads) == 1 and not probes:
+        ctx.ob('A2.probe', f, 'a short read is followed by an end-of-stream probe', False,
+               'no one-octet probe read in %s: after a short read nothing tells a stream that has ended from one that is merely '
+               'out of data, so a stream cut inside a value is reported as an underrun for ever' % f.short, node=R_node(reads[0]))
+        return
     if len(reads) != 1 or len(probes) != 1:
         raise AnalysisError('size read / one-octet probe not found in %s' % f.short)
     R, P = reads[0], probes[0]
